@@ -269,6 +269,12 @@ func runC02(c *Ctx) {
 	parallelFor(n, 0, func() bool { return c.ViolationCount() >= 20 }, func(idx int) {
 		r := gen.New(c.Seed, "c02", idx)
 		m, g := refmsg.Gen(r, c02GenOpts(r))
+		if idx%100 == 3 {
+			// directed: a name that first occurs right at the edge of what a 14-bit compression pointer
+			// can address (0x3FFF / 0x4000) and is used again afterwards
+			m = c02BoundaryMsg(r, 16376+(idx/100)%17)
+			g = &refmsg.NameGen{}
+		}
 		pc := 0.7
 		if r.P(0.15) {
 			pc = 0
@@ -492,4 +498,35 @@ func c02Check(c *Ctx, cnt *counterSet, idx int, m *refmsg.Msg, w []byte) (reject
 		}
 	}
 	return ""
+}
+
+
+// c02BoundaryMsg: question, one opaque record sized so that (in mosproxy's compressed encoding) the
+// owner name of the next record starts exactly at offset target, then records that use that name
+// again as owner and inside RDATA.
+func c02BoundaryMsg(r *gen.R, target int) *refmsg.Msg {
+	lbl := func(s ...string) [][]byte {
+		var out [][]byte
+		for _, x := range s {
+			out = append(out, []byte(x))
+		}
+		return out
+	}
+	m := &refmsg.Msg{ID: uint16(r.Intn(65536)), Bits: refmsg.BitQR | refmsg.BitRD | refmsg.BitRA}
+	m.Questions = []refmsg.Question{{Name: lbl("q", "test"), Type: 1, Class: 1}}
+	// header 12 + question (8+4) = 24; pad record: root owner (1) + 10 + L
+	L := target - 24 - 11
+	m.Answers = append(m.Answers, refmsg.RR{Name: nil, Type: 65280, Class: 1, TTL: 1, Data: []refmsg.Part{{Raw: r.Bytes(L)}}})
+	edge := lbl(fmt.Sprintf("edge%d", r.Intn(100)), "zone", "example")
+	if r.Bool() {
+		edge = lbl("e", "x")
+	}
+	m.Answers = append(m.Answers,
+		refmsg.RR{Name: edge, Type: 1, Class: 1, TTL: 60, Data: []refmsg.Part{{Raw: []byte{192, 0, 2, 1}}}},
+		refmsg.RR{Name: edge, Type: 28, Class: 1, TTL: 60, Data: []refmsg.Part{{Raw: r.Bytes(16)}}},
+		refmsg.RR{Name: append(lbl("www"), edge...), Type: 5, Class: 1, TTL: 60, Data: []refmsg.Part{{IsName: true, Name: edge}}},
+	)
+	m.Authorities = append(m.Authorities, refmsg.RR{Name: edge[1:], Type: 2, Class: 1, TTL: 60, Data: []refmsg.Part{{IsName: true, Name: append(lbl("ns"), edge...)}}})
+	m.Additionals = append(m.Additionals, refmsg.RR{Name: append(lbl("ns"), edge...), Type: 1, Class: 1, TTL: 60, Data: []refmsg.Part{{Raw: []byte{192, 0, 2, 2}}}})
+	return m
 }
